@@ -375,9 +375,9 @@ package boltz
 // reverse, raw keys
 //@ view curSeq[*ReverseBoltCursor] = revArr(bcKeys[self.cursor], bcLen[self.cursor])
 //@ view curLen[*ReverseBoltCursor] = bcLen[self.cursor]
-//@ view curPos[*ReverseBoltCursor] = bcLen[self.cursor] - 1 - bcPos[self.cursor]
+//@ view curPos[*ReverseBoltCursor] = ite(bcPos[self.cursor] >= bcLen[self.cursor], bcLen[self.cursor], bcLen[self.cursor] - 1 - bcPos[self.cursor])
 //@ view curDesc[*ReverseBoltCursor] = true
-//@ typeinv ReverseBoltCursor: bcPos[self.cursor] < bcLen[self.cursor] && (self.key != nil) == (bcPos[self.cursor] >= 0) && (self.key != nil ==> str(self.key) == bcKeys[self.cursor][bcPos[self.cursor]])
+//@ typeinv ReverseBoltCursor: (self.key != nil) == (bcPos[self.cursor] >= 0 && bcPos[self.cursor] < bcLen[self.cursor]) && (self.key != nil ==> str(self.key) == bcKeys[self.cursor][bcPos[self.cursor]])
 // forward, typed keys (every key carries the cursor's field type tag; elements are the untagged keys)
 //@ view curSeq[*TypedForwardBoltCursor] = untagArr(bcKeys[self.cursor])
 //@ view curLen[*TypedForwardBoltCursor] = bcLen[self.cursor]
@@ -387,9 +387,9 @@ package boltz
 // reverse, typed keys
 //@ view curSeq[*TypedReverseBoltCursor] = revArr(untagArr(bcKeys[self.cursor]), bcLen[self.cursor])
 //@ view curLen[*TypedReverseBoltCursor] = bcLen[self.cursor]
-//@ view curPos[*TypedReverseBoltCursor] = bcLen[self.cursor] - 1 - bcPos[self.cursor]
+//@ view curPos[*TypedReverseBoltCursor] = ite(bcPos[self.cursor] >= bcLen[self.cursor], bcLen[self.cursor], bcLen[self.cursor] - 1 - bcPos[self.cursor])
 //@ view curDesc[*TypedReverseBoltCursor] = true
-//@ typeinv TypedReverseBoltCursor: bcPos[self.cursor] < bcLen[self.cursor] && (self.key != nil) == (bcPos[self.cursor] >= 0) && (self.key != nil ==> str(self.key) == untag(bcKeys[self.cursor][bcPos[self.cursor]])) && forall(i, 0 <= i && i < bcLen[self.cursor] ==> sel(bcKeys[self.cursor], i) == prepend(self.fieldType, untag(sel(bcKeys[self.cursor], i))))
+//@ typeinv TypedReverseBoltCursor: (self.key != nil) == (bcPos[self.cursor] >= 0 && bcPos[self.cursor] < bcLen[self.cursor]) && (self.key != nil ==> str(self.key) == untag(bcKeys[self.cursor][bcPos[self.cursor]])) && forall(i, 0 <= i && i < bcLen[self.cursor] ==> sel(bcKeys[self.cursor], i) == prepend(self.fieldType, untag(sel(bcKeys[self.cursor], i))))
 
 //@ implcheck C14 ast.SeekableSetCursor *ForwardBoltCursor *ReverseBoltCursor *TypedForwardBoltCursor *TypedReverseBoltCursor
 
